@@ -90,11 +90,25 @@ pub fn gen_enum(t: &mut Tape, name: &str, w: u64) -> EnumDef {
         let k = t.below(variants.len() as u64) as usize;
         variants[k].default = true;
     }
+    // doc comments before, after and around `#[default]` and the item attributes
+    let mut edoc = vec![];
+    if t.chance(1, 4) {
+        for v in variants.iter_mut() {
+            if t.chance(1, 3) {
+                v.doc = (0..1 + t.below(2)).map(|i| format!(" case doc {i}")).collect();
+                v.sty = (t.below(4) as u8) | if t.chance(1, 2) { 0x40 } else { 0 };
+            }
+        }
+        if t.chance(1, 2) {
+            edoc = (0..1 + t.below(3)).map(|i| format!(" enum doc {i}")).collect();
+        }
+    }
+    let esty = (t.below(4) as u8) | if t.chance(1, 3) { 0x80 } else { 0 } | if t.chance(1, 3) { 0x40 } else { 0 };
     EnumDef {
-        sty: 0,
+        sty: esty,
         vis: true,
         name: name.to_string(),
-        doc: vec![],
+        doc: edoc,
         base: base.to_string(),
         variants,
         singleton: None,
